@@ -582,3 +582,74 @@ def check_comparators(prog, chk, rule_id):
         r = paths[0].ret if len(paths) == 1 else TOP
         chk.ob(rule_id, "KSI_Integer_equalsUInt[%#x,%#x]" % (a, b), isinstance(r, int) and bool(r) == (a == b), "expected %s, source returns %s" % (int(a == b), r),
                loc=fu.loc(), fn=fu, nontrivial=(a != b))
+
+
+def check_receive_calendar(prog, chk, rule_id):
+    """receiveCalendarHashChain (the extension step of the publication / calendar based rules) over the reply's status, request id and
+    chain presence: the extender's chain becomes the anchor candidate only for status absent-or-zero and the request's own id."""
+    import itertools
+    from ksirules.interp import TOP, Interp, Ptr, inline_model, succeed_model
+    from ksirules.model import lvalue_key, strip
+    fn = prog.fn("receiveCalendarHashChain", "verification_rule.c")
+    ip, ep = fn.params[0]["n"], fn.params[1]["n"]
+    conv = prog.fn("KSI_convertExtenderStatusCode", "net.c")
+    helpers = {n["fn"] for b, i, n in conv.calls() if n.get("fn") and any(g.unit == conv.unit for g in prog.functions.get(n["fn"], []))}
+    for status, idrel, chain in itertools.product(("absent", 0, 0x301, 0x101, 1 << 32), ("same", "other", "other-high-bits"), (1, 0)):
+        def getter(field, obj=None):
+            def g(I, p, node, args):
+                out = strip(node["a"][1])
+                src = args[0].what if isinstance(args[0], Ptr) else None
+                I.write(p, I.canon(p, I.key_of(p, out["e"])), I.read(p, "%s->%s" % (src, field)) if src else TOP)
+                return 0
+            return g
+
+        def getresp(I, p, node, args):
+            I.write(p, lvalue_key(strip(node["a"][1])["e"], I.fn), Ptr("RESP"))
+            return 0
+
+        def mkreq(I, p, node, args):
+            I.write(p, lvalue_key(strip(node["a"][3])["e"], I.fn), Ptr("REQ"))
+            return 0
+
+        def send(I, p, node, args):
+            I.write(p, lvalue_key(strip(node["a"][2])["e"], I.fn), Ptr("HANDLE"))
+            return 0
+        sets = []
+
+        def setchain(I, p, node, args):
+            sets.append(args[1])
+            if args[1] == 0 and isinstance(args[0], Ptr):
+                I.write(p, "%s->calendarChain" % args[0].what, 0)
+            return 0
+        reqid = 0x0000000100000007
+        respid = {"same": reqid, "other": reqid + 1, "other-high-bits": reqid + (1 << 32)}[idrel]
+        inputs = {ip: Ptr("info"), ep: Ptr("END"), "info->ctx": Ptr("ctx"), "info->signature": Ptr("sig"), "info->tempData": Ptr("td"), "td->calendarChain": 0,
+                  "sig->calendarChain": Ptr("SC"), "SC->aggregationTime": Ptr("AT"), "RESP->status": 0 if status == "absent" else Ptr("ST"),
+                  "ST->value": status if status != "absent" else 0, "RESP->requestId": Ptr("RID"), "RID->value": respid, "REQ->requestId": Ptr("QID"),
+                  "QID->value": reqid, "RESP->calendarChain": Ptr("EXTCHAIN") if chain else 0, "RESP->errorMsg": 0}
+        ov = {"KSI_CalendarHashChain_getAggregationTime": getter("aggregationTime"), "KSI_createExtendRequest": mkreq, "KSI_sendExtendRequest": send,
+              "KSI_RequestHandle_getExtendResponse": getresp, "KSI_ExtendResp_getStatus": getter("status"), "KSI_ExtendResp_getErrorMsg": getter("errorMsg"),
+              "KSI_ExtendResp_getRequestId": getter("requestId"), "KSI_ExtendReq_getRequestId": getter("requestId"),
+              "KSI_ExtendResp_getCalendarHashChain": getter("calendarChain"), "KSI_ExtendResp_setCalendarHashChain": setchain,
+              "KSI_Utf8String_cstr": lambda I, p, n, a: Ptr("str:msg"),
+              "KSI_ExtendReq_free": lambda I, p, n, a: TOP, "KSI_RequestHandle_free": lambda I, p, n, a: TOP, "KSI_ExtendResp_free": lambda I, p, n, a: TOP,
+              "KSI_CalendarHashChain_free": lambda I, p, n, a: TOP}
+        inl = inline_model(prog, {"KSI_convertExtenderStatusCode", "KSI_Integer_getUInt64", "KSI_Integer_equals", "KSI_Integer_equalsUInt"} | helpers,
+                           fallback=succeed_model(prog, ov))
+        I = Interp(fn, inputs=inputs, call_model=inl, on_unknown="stop", prog=prog)
+        paths = I.run()
+        chk.paths += len(paths)
+        inst = "receiveCalendarHashChain[status=%s,request id %s,chain %s]" % (status if status == "absent" else hex(status), idrel, "present" if chain else "absent")
+        if len(paths) != 1 or paths[0].undetermined:
+            raise AnalysisBroken("receiveCalendarHashChain: evaluation not determined for %s: %s" % (inst, [q.undetermined[:1] for q in paths]))
+        q = paths[0]
+        stored = [t[2] for t in q.stores("td->calendarChain") if t[2] != 0]
+        good = status in ("absent", 0) and idrel == "same"
+        if good:
+            ok = q.ret == 0 and stored[-1:] == ([Ptr("EXTCHAIN")] if chain else []) and (not chain or 0 in sets)
+            want = "KSI_OK, the reply's chain becomes the extended chain and is detached from the reply"
+        else:
+            ok = q.ret not in (0, None) and not stored
+            want = "an error status and no extended chain"
+        chk.ob(rule_id, inst, ok, "expected %s; source: status %s, extended chain stores %s" % (want, hex(q.ret) if isinstance(q.ret, int) else q.ret, stored),
+               loc=fn.loc(), fn=fn)
